@@ -182,7 +182,7 @@ func (x *wsSess) close()            { x.p.close() }
 func (x *wsSess) addr() string      { return x.p.localAddr() }
 
 // openWS dials and runs the play dialogue over ws-rtsp.
-func openWS(t evid.TB, s *srv.Server, pl *plan, path string, exp *expectation, sentinel func() []byte) *wsSess {
+func openWS(t evid.TB, s *srv.Server, pl *plan, path string, exp *expectation, sentinel func() []byte, u *udpRecv) *wsSess {
 	var p *wsConn
 	var err error
 	if pl.Transport == "tcp" { // backlog stress over RTSP/TCP: same session code over the raw connection
@@ -230,9 +230,8 @@ func openWS(t evid.TB, s *srv.Server, pl *plan, path string, exp *expectation, s
 		p.close()
 		t.Fatalf("machinery: described SDP has %d media sections", len(ctl))
 	}
-	do("SETUP", rtspc.TrackURL(x.url, ctl[0].Control), fmt.Sprintf("Transport: RTP/AVP/TCP;unicast;interleaved=%d-%d\r\n", pl.Video[0], pl.Video[1]))
-	if pl.Audio[0] >= 0 {
-		do("SETUP", rtspc.TrackURL(x.url, ctl[1].Control), fmt.Sprintf("Transport: RTP/AVP/TCP;unicast;interleaved=%d-%d\r\n", pl.Audio[0], pl.Audio[1]))
+	for _, st := range pl.setups(x.url, ctl, u) {
+		do("SETUP", st.url, "Transport: "+st.transport+"\r\n")
 	}
 	do("PLAY", x.url, "Range: npt=0.000-\r\n")
 	if !srv.WaitFor(ioBound, func() bool { return srv.Consumers(path) == 1 }) {
